@@ -49,16 +49,20 @@ UtxosUpdate(s, rep, rescan) ==
 
 \* ---- creating a transaction.  q: the request, x: the transaction returned
 \* q = [recips: Seq([id, v]), fee (explicit, or -1), minconf, inkeys (set of key ids, {} = any), sweep: BOOLEAN,
-\*      feemin, feemax, dust]
+\*      feemin, feemax, nexplicit, explicit (set of <<t, n>>)]
 \* x = [ins: Seq([t, n, v]), outs: Seq([v, key (own key id or 0), rid (index into recips or 0)]), fee, vsize]
 Spendable(s, q) == {c \in Unspent(s) : c.conf >= q.minconf /\ (q.inkeys = {} \/ c.key \in q.inkeys)}
 ReqTotal(q) == SumSeq(q.recips, 1)
 InsDistinct(x) == \A i, j \in 1..Len(x.ins) : i # j => <<x.ins[i].t, x.ins[i].n>> # <<x.ins[j].t, x.ins[j].n>>
 InputOK(s, q, in) == \E c \in Spendable(s, q) : c.t = in.t /\ c.n = in.n /\ c.v = in.v
-TxWhy(s, q, x) ==
+\* explicit input list (q.nexplicit > 0, q.explicit: set of <<t, n>>): the transaction spends exactly the listed outpoints;
+\* they are subject to the same rules (distinct, unspent, of this wallet) - only min_confirms is documented as ignored
+OutPts(x) == {<<x.ins[i].t, x.ins[i].n>> : i \in 1..Len(x.ins)}
+TxWhyG(s, q, x, InOK(_)) ==
     IF Len(x.ins) = 0 THEN "no-inputs"
     ELSE IF ~InsDistinct(x) THEN "input-used-twice"
-    ELSE IF \E i \in 1..Len(x.ins) : ~InputOK(s, q, x.ins[i]) THEN "input-not-an-unspent-confirmed-output-of-this-wallet"
+    ELSE IF q.nexplicit > 0 /\ OutPts(x) # q.explicit THEN "inputs-differ-from-the-explicit-list"
+    ELSE IF \E i \in 1..Len(x.ins) : ~InOK(x.ins[i]) THEN "input-not-an-unspent-confirmed-output-of-this-wallet"
     ELSE IF \E i \in 1..Len(x.outs) : x.outs[i].v < 0 THEN "negative-output"
     ELSE IF x.fee < 0 THEN "negative-fee"
     ELSE IF SumSeq(x.ins, 1) # SumSeq(x.outs, 1) + x.fee THEN "conservation"
@@ -69,11 +73,20 @@ TxWhy(s, q, x) ==
     ELSE IF q.fee >= 0 /\ ~q.sweep /\ x.fee < q.fee THEN "fee-below-requested"
     \* fee rate limits (per 1000 vbytes), with 3% tolerance for the difference between estimated and final size;
     \* q.feemin / q.feemax = 0: limit not checked (value outside this model's integer range)
-    ELSE IF x.vsize > 0 /\ q.feemin > 0 /\ x.fee * 100 < (q.feemin \div 1000) * x.vsize * 97 THEN "fee-rate-below-network-minimum"
-    ELSE IF x.vsize > 0 /\ q.feemax > 0 /\ x.fee * 100 > (q.feemax \div 1000) * x.vsize * 103 THEN "fee-rate-above-network-maximum"
+    ELSE IF x.vsize > 0 /\ q.feemin > 0 /\ x.fee < ((q.feemin \div 1000) * x.vsize * 97 + 99) \div 100 THEN "fee-rate-below-network-minimum"
+    ELSE IF x.vsize > 0 /\ q.feemax > 0 /\ x.fee > ((q.feemax \div 1000) * x.vsize * 103) \div 100 THEN "fee-rate-above-network-maximum"
     ELSE "ok"
+TxWhy(s, q, x) == TxWhyG(s, q, x, LAMBDA in : InputOK(s, q, in))
+\* named deviation "explicit-input-already-spent": an explicitly listed outpoint is taken without looking at the ledger's
+\* spent flag (an output of this wallet with that value, spent by a stored transaction of this wallet or by a report)
+KnownCoin(s, in) == \E c \in s.coins : c.t = in.t /\ c.n = in.n /\ c.v = in.v
+TxDev(s, q, x) ==
+    IF q.nexplicit > 0 /\ TxWhy(s, q, x) = "input-not-an-unspent-confirmed-output-of-this-wallet"
+       /\ TxWhyG(s, q, x, LAMBDA in : KnownCoin(s, in)) = "ok" THEN "explicit-input-already-spent" ELSE ""
 \* funds are insufficient when even all spendable outputs cannot pay the recipients (plus an explicit fee)
-Insufficient(s, q) == SumV(Spendable(s, q)) < ReqTotal(q) + (IF q.fee > 0 THEN q.fee ELSE 0)
+\* (with an explicit input list: the listed outputs; whether they may be spent at all is judged by TxWhy)
+Pool(s, q) == IF q.nexplicit > 0 THEN {c \in s.coins : <<c.t, c.n>> \in q.explicit} ELSE Spendable(s, q)
+Insufficient(s, q) == SumV(Pool(s, q)) < ReqTotal(q) + (IF q.fee > 0 THEN q.fee ELSE 0)
 
 \* ---- effect of broadcasting / storing a transaction: inputs spent, outputs to own keys become (unconfirmed) coins
 Broadcast(s, x, tnum) ==
